@@ -54,6 +54,34 @@ def js_round(x: float, ndigits: int = 0) -> float:
             return math.ceil(x * multiplier - 0.5) / multiplier
 
 
+def _scaled_round(num: int, den: int, k: int) -> int:
+    """num / den * 10**k rounded to an integer, halves up (num, den > 0).
+
+    Exact integer arithmetic: Number.prototype.toFixed and friends round the
+    exact value of the double (1.005 is below 1.005, 1.45 is below 1.45),
+    which rounding a binary product cannot reproduce.
+    """
+    if k >= 0:
+        num *= 10**k
+    else:
+        den *= 10**-k
+    return (2 * num + den) // (2 * den)
+
+
+def _decimal_digits(x: Union[int, float], p: int) -> Tuple[str, int]:
+    """The p significant decimal digits of x > 0 and its decimal exponent e:
+    digits * 10**(e - p + 1) is the p-digit decimal closest to x, ties up."""
+    num, den = x.as_integer_ratio()
+    e = len(str(num)) - len(str(den))  # floor(log10(x)), or one too many
+    if num * 10 ** max(-e, 0) < den * 10 ** max(e, 0):
+        e -= 1
+    n = _scaled_round(num, den, p - 1 - e)
+    if n == 10**p:  # 9.99... rounded up to the next power of ten
+        n //= 10
+        e += 1
+    return str(n), e
+
+
 @dataclass
 class ClosureCell:
     """A cell for closure variable - allows sharing between scopes."""
@@ -1714,18 +1742,30 @@ class VM:
     def _make_number_method(self, n: float, method: str) -> Any:
         """Create a bound number method."""
 
+        def digit_count(args, low, what):
+            """ToIntegerOrInfinity of the argument; RangeError unless low..100."""
+            from .errors import JSRangeError
+
+            d = to_number(args[0]) if args else 0
+            d = 0 if d != d else d
+            if not low - 1 < d < 101:
+                raise JSRangeError(f"{what} argument must be between {low} and 100")
+            return int(d)
+
+        def exponent_form(digits, e):
+            if len(digits) > 1:
+                digits = digits[0] + "." + digits[1:]
+            return f"{digits}e{'+' if e >= 0 else '-'}{abs(e)}"
+
         def toFixed(*args):
-            digits = int(to_number(args[0])) if args else 0
-            if digits < 0 or digits > 100:
-                raise JSReferenceError("toFixed() digits out of range")
-            # Use JavaScript-style rounding (round half away from zero)
-            rounded = js_round(n, digits)
-            result = f"{rounded:.{digits}f}"
-            # Handle negative zero: if n was negative but rounded to 0, keep the sign
-            if n < 0 or (n == 0 and math.copysign(1, n) == -1):
-                if rounded == 0:
-                    result = "-" + result.lstrip("-")
-            return result
+            digits = digit_count(args, 0, "toFixed()")
+            if not math.isfinite(n) or abs(n) >= 1e21:
+                return to_string(n)
+            num, den = abs(n).as_integer_ratio()
+            text = str(_scaled_round(num, den, digits)).rjust(digits + 1, "0")
+            if digits:
+                text = text[:-digits] + "." + text[-digits:]
+            return ("-" if n < 0 else "") + text
 
         def toString(*args):
             radix = int(to_number(args[0])) if args else 10
@@ -1741,104 +1781,36 @@ class VM:
             return self._number_to_base(n, radix)
 
         def toExponential(*args):
-            import math
+            if not math.isfinite(n):
+                return to_string(n)
+            explicit = bool(args) and args[0] is not UNDEFINED
+            digits = digit_count(args, 0, "toExponential()") if explicit else 0
+            sign = "-" if n < 0 else ""
+            if n == 0:
+                return exponent_form("0" * (digits + 1), 0)
+            if explicit:
+                return sign + exponent_form(*_decimal_digits(abs(n), digits + 1))
+            # as many digits as necessary: repr() has the shortest that identify the double
+            from decimal import Decimal
 
-            if args and args[0] is not UNDEFINED:
-                digits = int(to_number(args[0]))
-            else:
-                digits = None
-
-            if math.isnan(n):
-                return "NaN"
-            if math.isinf(n):
-                return "-Infinity" if n < 0 else "Infinity"
-
-            if digits is None:
-                # Default precision - minimal representation
-                # Use repr-style formatting and convert to exponential
-                if n == 0:
-                    return "0e+0"
-                sign = "-" if n < 0 else ""
-                abs_n = abs(n)
-                exp = int(math.floor(math.log10(abs_n)))
-                mantissa = abs_n / (10**exp)
-                # Format mantissa without trailing zeros
-                mantissa_str = f"{mantissa:.15g}".rstrip("0").rstrip(".")
-                exp_sign = "+" if exp >= 0 else ""
-                return f"{sign}{mantissa_str}e{exp_sign}{exp}"
-            else:
-                if digits < 0 or digits > 100:
-                    raise JSReferenceError("toExponential() digits out of range")
-                # Round to specified digits
-                if n == 0:
-                    return "0" + ("." + "0" * digits if digits > 0 else "") + "e+0"
-                sign = "-" if n < 0 else ""
-                abs_n = abs(n)
-                exp = int(math.floor(math.log10(abs_n)))
-                mantissa = abs_n / (10**exp)
-                # Round mantissa to specified digits using JS-style rounding
-                rounded = js_round(mantissa, digits)
-                if rounded >= 10:
-                    rounded /= 10
-                    exp += 1
-                if digits == 0:
-                    mantissa_str = str(int(js_round(rounded)))
-                else:
-                    mantissa_str = f"{rounded:.{digits}f}"
-                exp_sign = "+" if exp >= 0 else ""
-                return f"{sign}{mantissa_str}e{exp_sign}{exp}"
+            _, digits, exponent = Decimal(repr(float(abs(n)))).as_tuple()
+            text = "".join(map(str, digits))
+            return sign + exponent_form(text.rstrip("0"), len(text) + exponent - 1)
 
         def toPrecision(*args):
-            import math
-
-            if not args or args[0] is UNDEFINED:
-                if isinstance(n, float) and n.is_integer():
-                    return str(int(n))
-                return str(n)
-
-            precision = int(to_number(args[0]))
-            if precision < 1 or precision > 100:
-                raise JSReferenceError("toPrecision() precision out of range")
-
-            if math.isnan(n):
-                return "NaN"
-            if math.isinf(n):
-                return "-Infinity" if n < 0 else "Infinity"
-
-            if n == 0:
-                if precision == 1:
-                    return "0"
-                return "0." + "0" * (precision - 1)
-
+            if not args or args[0] is UNDEFINED or not math.isfinite(n):
+                return to_string(n)
+            precision = digit_count(args, 1, "toPrecision()")
             sign = "-" if n < 0 else ""
-            abs_n = abs(n)
-            exp = int(math.floor(math.log10(abs_n)))
-
-            # Decide if we use exponential or fixed notation
-            if exp < -6 or exp >= precision:
-                # Use exponential notation
-                mantissa = abs_n / (10**exp)
-                rounded = js_round(mantissa, precision - 1)
-                if rounded >= 10:
-                    rounded /= 10
-                    exp += 1
-                if precision == 1:
-                    mantissa_str = str(int(js_round(rounded)))
-                else:
-                    mantissa_str = f"{rounded:.{precision - 1}f}"
-                exp_sign = "+" if exp >= 0 else ""
-                return f"{sign}{mantissa_str}e{exp_sign}{exp}"
+            if n == 0:
+                digits, e = "0" * precision, 0
             else:
-                # Use fixed notation
-                # Calculate digits after decimal
-                if exp >= 0:
-                    decimal_places = max(0, precision - exp - 1)
-                else:
-                    decimal_places = precision - 1 - exp
-                rounded = js_round(abs_n, decimal_places)
-                if decimal_places <= 0:
-                    return f"{sign}{int(rounded)}"
-                return f"{sign}{rounded:.{decimal_places}f}"
+                digits, e = _decimal_digits(abs(n), precision)
+                if e < -6 or e >= precision:
+                    return sign + exponent_form(digits, e)
+            if e < 0:
+                return sign + "0." + "0" * (-e - 1) + digits
+            return sign + (digits[: e + 1] + "." + digits[e + 1 :]).rstrip(".")
 
         def valueOf(*args):
             return n
